@@ -13,6 +13,7 @@ import (
 )
 
 type Clause struct {
+	Free  bool // free requires: assumed when the function is verified, not an obligation of callers
 	Label string
 	Src   string
 	E     *Expr
@@ -286,6 +287,13 @@ func (cs *ContractSet) LoadFile(path, pkg string, trusted bool) error {
 			switch fields[0] {
 			case "requires":
 				cur.Requires = append(cur.Requires, mk(rest, p.line, true))
+			case "free":
+				// free requires <expr>: a system invariant assumed at this entry point (listed as an assumption)
+				r2 := strings.TrimSpace(strings.TrimPrefix(rest, "requires"))
+				c := mk(r2, p.line, true)
+				c.Free = true
+				cur.Requires = append(cur.Requires, c)
+				cs.Pragmas = append(cs.Pragmas, "free requires of "+cur.Func+": "+c.Src)
 			case "ensures":
 				cur.Ensures = append(cur.Ensures, mk(rest, p.line, true))
 			case "panics":
